@@ -85,7 +85,10 @@ def gen_syn_module(rng, memtype, P_ns, nphases, tight=False, big_ras=False, geom
             "tRRD": pair(rng.randint(0, rrd), rrd),
             "tZQCS": rng.choice([None, [rng.choice([16, 32, 64]), ns_for(rng.randint(4, 20))]]) if memtype in ("DDR3", "DDR4") else None}
     speed = {"tRP": ns_for(tRP), "tRCD": ns_for(tRCD), "tWR": ns_for(tWR),
-             "tRFC": [None, ns_for(tRFC)], "tFAW": None if faw is None else [None, ns_for(faw)], "tRAS": ns_for(tRAS)}
+             "tRFC": [None, ns_for(tRFC)],
+             # four-activate window: ns only, or (as the DDR4 RDIMM entries) with a minimum in clocks that may dominate
+             "tFAW": None if faw is None else [rng.choice([None, None, faw * nphases, max(1, faw - 1) * nphases]), ns_for(max(1, faw - rng.choice([0, 0, 2])))],
+             "tRAS": ns_for(tRAS)}
     bankbits = rng.choice([1, 2, 2, 3, 3, 4])
     colbits = rng.choice([8, 9, 10, 10, 11, 12])
     # the address bus (max(rowbits, colbits) wide) must carry A10 and, beyond it, the shifted column bits
